@@ -77,7 +77,8 @@ def run(run: common.Run):
         rasters.write_tif(rp, ref, south_up=case['south_up'] in ('ref', 'both'))
         cls = RasterFuse if case['cls'] == 'fuse' else RasterCompare
         try:
-            cls(sp, rp)
+            # file names as str or as Path, alternately (both are documented)
+            cls(str(sp), str(rp)) if case['i'] % 2 else cls(sp, rp)
             got = 1
         except ImageContentError:
             got = 0
